@@ -3,15 +3,14 @@ CONSTANTS
   K = 4
   SizeLimit = 3
   PeerLimit = 2
-  RingCap = 2
-  CacheCap = 1
-  Universe <- UC
+  RingCap = 1
+  CacheCap = 0
+  Universe <- UB
   H0 = 1
   Peers = {1}
   Fine = FALSE
-  UseRing = TRUE
+  UseRing = FALSE
   MaxWritten = 99
 VIEW View
-INVARIANT Inv
-PROPERTY StepProp
+PROPERTY ReachAdvanceBadCert
 CHECK_DEADLOCK FALSE
